@@ -21,6 +21,14 @@ theorem sumTo_eq (n : Nat) (f : Nat → ℝ) : Num.sumTo n f = ∑ i ∈ Finset.
   | zero => simp [Num.sumTo, ofInt_eq]
   | succ k ih => rw [Num.sumTo, ih, Finset.sum_range_succ]
 
+theorem npow_eq (x : ℝ) (k : Nat) : Num.npow x k = x ^ k := by
+  induction k with
+  | zero => simp [Num.npow, ofInt_eq]
+  | succ j ih => rw [Num.npow, ih, pow_succ]
+
+theorem ofFrac_eq (p : Int) (q : Nat) : (Num.ofFrac p q : ℝ) = (p : ℝ) / (q : ℝ) := by
+  simp [Num.ofFrac, ofInt_eq]
+
 open Model.C13
 
 theorem trapz_eq (n : Nat) (d : ℝ) (y : Nat → ℝ) :
